@@ -352,11 +352,38 @@ Definition past_serving (r : rstate) : bool := match r with RNotStarted | RServi
 Definition ended (s : sys) : Prop :=
   tclosed s = true \/ eof s = true \/ In PBad (inbox s) \/ past_serving (rd s) = true.
 
+Definition after_close (r : rstate) : bool := match r with RExit1 | RExit2 | RExit3 | RFinished => true | _ => false end.
+
+(* true of every reachable state: the serve-exit sequence closes the transport first and Done() last *)
+Definition reader_inv (s : sys) : Prop :=
+  (rd s = RFinished -> cclosed s = true) /\ (after_close (rd s) = true -> tclosed s = true).
+
+Lemma step_reader_inv : forall l s s', rd s <> RNotStarted -> reader_inv s -> step l s = Some s' -> reader_inv s'.
+Proof.
+  intros [|i a] s s' Hst [Hcc Htc] H.
+  - cbn [step] in H. unfold rstep in H.
+    destruct (rd s) eqn:Erd; try discriminate.
+    + destruct (inbox s) as [|[j| |] q] eqn:Ein.
+      * destruct (tclosed s || eof s); [|discriminate]. injection H as <-. split; cbn; discriminate.
+      * injection H as <-. unfold deliver, reader_inv. cbn [calls set_inbox].
+        destruct (nth_error (calls s) j); cbn; rewrite Erd; split; discriminate.
+      * injection H as <-. unfold reader_inv. cbn. rewrite Erd. split; discriminate.
+      * injection H as <-. split; cbn; discriminate.
+    + injection H as <-. split; cbn; [discriminate|reflexivity].
+    + injection H as <-. unfold reader_inv. destruct (disc s); cbn; (split; [discriminate|intros _; apply Htc; reflexivity]).
+    + injection H as <-. split; cbn; [discriminate|intros _; apply Htc; reflexivity].
+    + injection H as <-. split; cbn; [reflexivity|intros _; apply Htc; reflexivity].
+  - apply step_call_inv in H as (c & c' & e & En & Ec & ->).
+    assert (Hns : rd (set_calls s (upd i c' (calls s))) <> RNotStarted) by exact Hst.
+    unfold reader_inv. rewrite apply_effect_rd, apply_effect_cclosed by exact Hns. cbn [rd cclosed set_calls].
+    split; [exact Hcc|]. intros Ha. apply apply_effect_tclosed. cbn. apply Htc. exact Ha.
+Qed.
+
 Record sinv (s : sys) : Prop := mkSinv {
   si_wf : Forall wf_call (calls s);
   si_started : rd s <> RNotStarted;
   si_ended : ended s;
-  si_cc : rd s = RFinished -> cclosed s = true
+  si_cc : reader_inv s
 }.
 
 Lemma wf_call_cstep : forall tcl ccl wl rl a c c' e,
@@ -372,32 +399,34 @@ Qed.
 
 Lemma step_sinv : forall l s s', sinv s -> step l s = Some s' -> sinv s'.
 Proof.
-  intros [|i a] s s' [Hwf Hst Hen Hcc] H.
+  intros l s s' [Hwf Hst Hen Hcc] H.
+  pose proof (step_reader_inv l s s' Hst Hcc H) as Hri.
+  destruct l as [|i a].
   - cbn [step] in H. unfold rstep in H.
     destruct (rd s) eqn:Erd; try discriminate.
     + destruct (inbox s) as [|[j| |] q] eqn:Ein.
       * destruct (tclosed s || eof s) eqn:Et; [|discriminate]. injection H as <-.
         constructor; cbn; try assumption; try discriminate. right; right; right. reflexivity.
-      * injection H as <-. unfold deliver. cbn [calls set_inbox].
+      * injection H as <-. unfold deliver in *. cbn [calls set_inbox] in *.
         assert (Hen' : ended (set_inbox s q)).
         { destruct Hen as [Ht|[He|[Hb|Hp]]]; [left; exact Ht|right; left; exact He| |rewrite Erd in Hp; discriminate].
           rewrite Ein in Hb. destruct Hb as [Hb|Hb]; [discriminate|]. right; right; left. exact Hb. }
         destruct (nth_error (calls s) j) as [c|] eqn:En.
-        -- constructor; cbn; rewrite ?Erd; try discriminate; try exact Hen'.
+        -- constructor; [| | |exact Hri]; cbn; rewrite ?Erd; try discriminate; try exact Hen'.
            apply Forall_upd; [exact Hwf|].
            pose proof (proj1 (Forall_forall _ _) Hwf c (nth_error_In _ _ En)) as Hc. exact Hc.
-        -- constructor; cbn; rewrite ?Erd; try discriminate; try exact Hen'. exact Hwf.
-      * injection H as <-. constructor; cbn; rewrite ?Erd; try discriminate; try exact Hwf.
+        -- constructor; [| | |exact Hri]; cbn; rewrite ?Erd; try discriminate; try exact Hen'. exact Hwf.
+      * injection H as <-. constructor; [| | |exact Hri]; cbn; rewrite ?Erd; try discriminate; try exact Hwf.
         destruct Hen as [Ht|[He|[Hb|Hp]]]; [left; exact Ht|right; left; exact He| |rewrite Erd in Hp; discriminate].
         rewrite Ein in Hb. destruct Hb as [Hb|Hb]; [discriminate|]. right; right; left. exact Hb.
-      * injection H as <-. constructor; cbn; try discriminate; try exact Hwf. right; right; right. reflexivity.
-    + injection H as <-. constructor; cbn; try discriminate; try exact Hwf. left. reflexivity.
-    + injection H as <-. constructor; destruct (disc s); cbn; try discriminate; try exact Hwf; right; right; right; reflexivity.
-    + injection H as <-. constructor; cbn; try discriminate; try exact Hwf. right; right; right; reflexivity.
-    + injection H as <-. constructor; cbn; try discriminate; try exact Hwf; try reflexivity. right; right; right; reflexivity.
+      * injection H as <-. constructor; [| | |exact Hri]; cbn; try discriminate; try exact Hwf. right; right; right. reflexivity.
+    + injection H as <-. constructor; [| | |exact Hri]; cbn; try discriminate; try exact Hwf. left. reflexivity.
+    + injection H as <-. constructor; [| | |exact Hri]; destruct (disc s); cbn; try discriminate; try exact Hwf; right; right; right; reflexivity.
+    + injection H as <-. constructor; [| | |exact Hri]; cbn; try discriminate; try exact Hwf. right; right; right; reflexivity.
+    + injection H as <-. constructor; [| | |exact Hri]; cbn; try discriminate; try exact Hwf. right; right; right; reflexivity.
   - apply step_call_inv in H as (c & c' & e & En & Ec & ->).
     assert (Hns : rd (set_calls s (upd i c' (calls s))) <> RNotStarted) by exact Hst.
-    constructor.
+    constructor; [| | |exact Hri].
     + rewrite apply_effect_calls. cbn [calls set_calls]. apply Forall_upd; [exact Hwf|].
       eapply wf_call_cstep; [|exact Ec]. exact (proj1 (Forall_forall _ _) Hwf c (nth_error_In _ _ En)).
     + rewrite apply_effect_rd by exact Hns. exact Hst.
@@ -407,7 +436,6 @@ Proof.
       * right; right; left. destruct (apply_effect_inbox i e (set_calls s (upd i c' (calls s)))) as (t & -> & _).
         apply in_or_app. left. exact Hb.
       * right; right; right. rewrite apply_effect_rd by exact Hns. exact Hp.
-    + rewrite apply_effect_rd, apply_effect_cclosed by exact Hns. exact Hcc.
 Qed.
 
 Lemma run_sinv : forall sched s, sinv s -> sinv (run sched s).
@@ -430,10 +458,11 @@ Qed.
 
 (* an active call whose next instruction is not a lock acquisition can move once connClosed is closed *)
 Lemma enabled_nonlock : forall s i c ins tl, nth_error (calls s) i = Some c -> active c = true ->
-  rest c = ins :: tl -> is_lock ins = false -> cclosed s = true -> step (LCall i AClosed) s <> None.
+  rest c = ins :: tl -> is_lock ins = false -> cclosed s = true -> tclosed s = true ->
+  step (LCall i AClosed) s <> None.
 Proof.
-  intros s i c ins tl En Ha Er Hl Hc. cbn [step]. rewrite En. unfold cstep. rewrite Ha, Er, Hc. cbn [negb].
-  destruct ins; try discriminate; try (destruct (tclosed s)); try (destruct (answers c)); discriminate.
+  intros s i c ins tl En Ha Er Hl Hc Ht. cbn [step]. rewrite En. unfold cstep. rewrite Ha, Er, Hc, Ht. cbn [negb].
+  destruct ins; try discriminate; try (destruct (answers c)); discriminate.
 Qed.
 
 Lemma enabled_lock : forall s i c ins tl, nth_error (calls s) i = Some c -> active c = true ->
@@ -454,11 +483,13 @@ Theorem quiescent_all_returned : forall s, sinv s -> Quiescent s ->
   rd s = RFinished /\ cclosed s = true /\ Forall (fun c => active c = false) (calls s).
 Proof.
   intros s Hi Hq. pose proof (quiescent_reader_finished s Hi Hq) as Hr.
-  pose proof (si_cc s Hi Hr) as Hc. split; [exact Hr|]. split; [exact Hc|].
+  destruct (si_cc s Hi) as [Hc0 Htc0]. pose proof (Hc0 Hr) as Hc.
+  assert (Htc : tclosed s = true) by (apply Htc0; rewrite Hr; reflexivity).
+  split; [exact Hr|]. split; [exact Hc|].
   (* 1: every active call sits at a lock acquisition *)
   assert (H1 : forall i c ins tl, nth_error (calls s) i = Some c -> active c = true -> rest c = ins :: tl -> is_lock ins = true).
   { intros i c ins tl En Ha Er. destruct (is_lock ins) eqn:El; [reflexivity|].
-    exfalso. apply (enabled_nonlock s i c ins tl En Ha Er El Hc). apply Hq. }
+    exfalso. apply (enabled_nonlock s i c ins tl En Ha Er El Hc Htc). apply Hq. }
   (* 2: so no active call holds the lock *)
   assert (H2 : forall c, In c (calls s) -> active c = true -> held c = HNone).
   { intros c Hin Ha. destruct (In_nth_error _ _ Hin) as [i En].
@@ -568,7 +599,7 @@ Proof. induction cs; constructor; [left; reflexivity|assumption]. Qed.
    the reader goroutine is gone *)
 Theorem all_wake : forall (cs : list cst) (s : sys) (sched : list label),
   Forall parked cs -> calls s = cs -> stray_only cs (inbox s) ->
-  rd s <> RNotStarted -> (rd s = RFinished -> cclosed s = true) -> ended s ->
+  rd s <> RNotStarted -> reader_inv s -> ended s ->
   Quiescent (run sched s) ->
   Forall2 (fun c0 c => c = finish c0 (closed_err c0)) cs (calls (run sched s)) /\
   cclosed (run sched s) = true /\ rd (run sched s) = RFinished.
@@ -592,7 +623,7 @@ Lemma closed_err_is_closed : forall c0,
 Proof.
   intros c0. destruct (finish_as_fold c0 (closed_err c0)) as [ws E]. eexists. split; [exact E|].
   rewrite chain_through_wrappers. unfold closed_err.
-  destruct (rest c0) as [|[| | | |kc kx| |] t]; try reflexivity.
+  destruct (rest c0) as [|[| | | |kc kx| | | |] t]; try reflexivity.
   destruct (wrap_as_fold kc (Leaf SClosedTransport)) as [ws' ->]. rewrite chain_through_wrappers. reflexivity.
 Qed.
 
@@ -806,6 +837,31 @@ Proof.
   exact (proj1 (forallb_forall _ _) (proj1 (forallb_forall _ _) stray_matrix_ok_b k Hk) _ Hin).
 Qed.
 
+(* ---------- calls parked inside Transport.Write; Disconnect followed by Close ---------- *)
+
+Lemma inwrite_cancel_then_close_b : forallb inwrite_cancel_then_close_ok all_calls = true.
+Proof. vm_compute. reflexivity. Qed.
+
+(* a call parked inside Transport.Write (peer stopped reading) is not released by its context — the transport
+   does not know it — but a local Close() always is the way out: under every schedule it then returns the write
+   error, Done() is closed and the reader is gone. Close closes the transport whatever the connection state
+   (also after Disconnect has set StateDisconnected: the call may be Disconnect itself). *)
+Theorem close_ends_stalled_write : forall c, inwrite_cancel_then_close_ok c = true.
+Proof.
+  intros c. apply (proj1 (forallb_forall _ _) inwrite_cancel_then_close_b). destruct c; cbn; tauto.
+Qed.
+
+Definition dseq_all_ok (n : nat) : bool :=
+  forallb (fun r => match r with Some o => dseq_ok n o | None => false end) (dseq_outcomes n).
+
+(* Disconnect whose write failed returns the write error and leaves the connection up (Done() open, reader
+   serving); the Close() that follows ends it. Close() after a successful Disconnect changes nothing. *)
+Theorem close_after_disconnect :
+  dseq_all_ok 0 = true /\ dseq_all_ok 1 = true /\
+  observe LocalClose (dseq_mid 0) = mkO KWrite false false false /\
+  observe LocalClose (dseq_mid 1) = mkO KNil false true true.
+Proof. repeat split; vm_compute; reflexivity. Qed.
+
 (* ---------- finding F14 ---------- *)
 
 Definition ctx_live (x : ctxst) : bool := match x with CtxLive => true | _ => false end.
@@ -874,6 +930,12 @@ Proof.
 Qed.
 
 (* ---------- the reconnecting client ---------- *)
+
+(* reconnectClient.Connect ended by its context: whatever dial / handshake errors the loop has recorded before
+   (they are quoted in the message), the returned error's chain contains the context's error *)
+Theorem reconnect_connect_ctx_error : forall rc x, x <> CtxLive ->
+  chain_contains unwraps_fixed (ctx_sentinel x) (rconnect_err rc x) = true.
+Proof. intros rc [| |] H; try contradiction; reflexivity. Qed.
 
 Lemma rmatrix_ok_b : forallb (fun k => rok (fst k) (snd k) (rcell_run true (fst k) (snd k))) rmatrix = true.
 Proof. vm_compute. reflexivity. Qed.
@@ -948,14 +1010,14 @@ Lemma parkedb_parked : forall c, parkedb c = true -> parked c.
 Proof.
   intros c H. unfold parkedb in H.
   destruct (res c) eqn:Er; try discriminate. destruct (cx c) eqn:Ex; try discriminate.
-  destruct (ackready c) eqn:Ea; try discriminate. destruct (rest c) as [|[| | | |kc kx| |] rs] eqn:Ers; try discriminate.
+  destruct (ackready c) eqn:Ea; try discriminate. destruct (rest c) as [|[| | | |kc kx| | | |] rs] eqn:Ers; try discriminate.
   repeat split; auto. exists kc, kx, rs. split; [exact Ers|].
   apply Forall_forall. intros i Hi. pose proof (proj1 (forallb_forall _ _) H i Hi) as Hb. cbn beta in Hb. destruct (is_lock i); [discriminate|reflexivity].
 Qed.
 
 Example all_wake_hypotheses :
   Forall parked (calls ex_sys) /\ stray_only (calls ex_sys) (inbox ex_sys) /\ rd ex_sys <> RNotStarted /\
-  (rd ex_sys = RFinished -> cclosed ex_sys = true) /\ ended ex_sys /\ Quiescent (run ex_sched ex_sys).
+  reader_inv ex_sys /\ ended ex_sys /\ Quiescent (run ex_sched ex_sys).
 Proof.
   split; [|split; [|split; [|split; [|split]]]].
   - apply Forall_forall. intros c Hc. apply parkedb_parked.
@@ -964,7 +1026,7 @@ Proof.
   - intros i Hi. vm_compute in Hi. vm_compute.
     destruct Hi as [E|[E|[E|[E|[]]]]]; try discriminate; injection E as <-; lia.
   - vm_compute. discriminate.
-  - vm_compute. discriminate.
+  - split; vm_compute; discriminate.
   - right; left. vm_compute. reflexivity.
   - apply quiescentb_true. vm_compute. reflexivity.
 Qed.
@@ -986,7 +1048,7 @@ Proof.
   - repeat constructor; cbn; try discriminate; try (exfalso; match goal with H : _ <> _ |- _ => apply H; reflexivity end).
   - discriminate.
   - left. reflexivity.
-  - discriminate.
+  - split; cbn; discriminate.
 Qed.
 
 Example exit_inv_instance : exit_inv (mkS false true [] RExit0 false false false [fresh CPub1 0]).
